@@ -964,6 +964,13 @@ ASSUMPTIONS = [
     'numerical sub-steps (split, bit extraction, carry, tininess) are correct',
 ]
 
+def _f2_round_to_odd(ctx: Ctx):
+    # a Fraction (or any operand that is not a dyadic rational) is rounded by `mpfr_call`, the same
+    # wrapper the arithmetic engines use; its structure is decided once, in engine_rules
+    from .engine_rules import f1_round_to_odd
+    f1_round_to_odd(ctx)
+
+
 RULES = [
     Rule('C01.T1', 'RoundingMode.to_direction equals the IEEE/ISO table for 8 modes x 2 signs', t1_to_direction, 16, 'T'),
     Rule('C01.T2', '_round_increment_direction: RTZ never, RAZ always, RTE iff odd, RTO iff even', t2_increment_direction, 4, 'T'),
@@ -978,6 +985,7 @@ RULES = [
     Rule('C01.F1b', 'every result of a context rounding is tagged with that context', f1b_result_tagged, 30, 'F'),
     Rule('C01.P3', 'inexact iff digits lost; exact=True refuses; flags and increment wiring in RealFloat._round_at', p3_inexact, 12, 'P'),
     Rule('C01.X2', 'Context._round_prepare operand-kind table', x2_round_prepare, 8, 'X'),
+    Rule('C01.F2', 'non-dyadic operands reach the format through the round-to-odd wrapper: RoundToZero, prec+2 digits, ternary, sticky fold (= C02.F1)', _f2_round_to_odd, 12, 'F'),
 ]
 
 
